@@ -166,8 +166,8 @@ func init() {
 		NotDecided:  "user-defined ItemNode implementations are outside the claim.",
 		Assumptions: append([]string{"external functions on the read-only allow-list (fmt, strings, strconv, unicode, utf8, math, regexp, binary.BigEndian.Uint*) do not modify or retain their slice arguments"}, stdAssumptions...)})
 	register(&Property{ID: "C12", Title: "Constructors store exactly what was passed or refuse it",
-		Rules:       []Rule{rDomMsg, rDomNodes, rLossy, only(rErr, "ast."), rCkRep, rIface, rAnchored, rLimit, only(rSizes, "checkRep:bounds", "FillVariables"), rCensus, rAllocSite, only(rImmut, "I5:global", "I5:import:ast", "I5:imports:ast")},
-		Explanation: "Each documented value domain is compared with the code's guards as sets, by three-valued evaluation over one representative per cell of the arrangement cut by all constants of the code, of its observed comparisons and of the specification: stream, function, wait bit x function parity, direction, session id, system-bytes length, message-name runes, element ranges of I1-I8/U1-U8/F4/F8/binary/ASCII per byteSize, admissible byteSizes, the size limit, ASCII-variable bounds (R14); every integer conversion in a factory is value-preserving or dominated by a refusal of the values it would change, and arguments reach the stored slice through conversions only, placeholders being zero (R3, R3b); accepted dynamic types are exactly the documented ones (R2); no parse error is dropped (R9); every allocation is validated before it is returned (R13); name patterns are anchored (R24). Nodes are allocated only by their own factory (R13b); every explicit refusal of pkg/ast is live, membership refusals insert what they test, and the refusals the statement names are present (R14c). What a constructor accepts cannot depend on earlier calls: pkg/ast has no package-level mutable state (I5).",
+		Rules:       []Rule{rDomMsg, rDomNodes, rLossy, only(rErr, "ast."), rCkRep, rIface, rAnchored, rLimit, only(rSizes, "checkRep:bounds", "FillVariables"), rCensus, rAllocSite, only(rImmut, ":I1:", "I5:global", "I5:import:ast", "I5:imports:ast")},
+		Explanation: "Each documented value domain is compared with the code's guards as sets, by three-valued evaluation over one representative per cell of the arrangement cut by all constants of the code, of its observed comparisons and of the specification: stream, function, wait bit x function parity, direction, session id, system-bytes length, message-name runes, element ranges of I1-I8/U1-U8/F4/F8/binary/ASCII per byteSize, admissible byteSizes, the size limit, ASCII-variable bounds (R14); every integer conversion in a factory is value-preserving or dominated by a refusal of the values it would change, and arguments reach the stored slice through conversions only, placeholders being zero (R3, R3b); accepted dynamic types are exactly the documented ones (R2); no parse error is dropped (R9); every allocation is validated before it is returned (R13); name patterns are anchored (R24). Nodes are allocated only by their own factory (R13b); every explicit refusal of pkg/ast is live, membership refusals insert what they test, and the refusals the statement names are present (R14c). What a constructor accepts cannot depend on earlier calls: pkg/ast has no package-level mutable state (I5); and what an item or message encodes to cannot drift from what was stored: no method writes a field of an object that already exists, so there is no memo to go stale (I1).",
 		NotDecided:  "that stored values are printed and encoded unchanged (C02/C04), float rounding, the languages of the name patterns beyond anchoring, and the list rules (ellipsis position, duplicates) beyond the presence of validation on every construction path are not decided.",
 		Assumptions: stdAssumptions})
 	register(&Property{ID: "C13", Title: "16,777,215-byte item limit and length header",
